@@ -112,6 +112,7 @@ v('c13-quote-order', 'C13', 'C13/domain-order', '"""', ('rogw/tranp/implements/s
 v('c14-key-renamed', 'C14', 'C14/record-keys-agree', 'Reflection', ('rogw/tranp/semantics/reflection/serializer.py', "				'origin': symbol.types.fullyname,", "				'org': symbol.types.fullyname,"))
 v('c14-via-from-origin', 'C14', 'C14/field-wiring', 'Options.via', ('rogw/tranp/semantics/reflection/serializer.py', "via = db[data['via']] if data['origin'] != data['via'] else None", "via = db[data['origin']] if data['origin'] != data['via'] else None"))
 v('c14-separator', 'C14', 'C14/attr-path-encoding', 'separator', ('rogw/tranp/lang/sequence.py', "			in_path = '.'.join(routes)\n			entries = {**entries, **expand(elem, in_path, iter_key)}\n	elif type(entry) is dict:", "			in_path = '/'.join(routes)\n			entries = {**entries, **expand(elem, in_path, iter_key)}\n	elif type(entry) is dict:"))
+v('c14-f15-reverted', 'C14', 'C14/export-post-order', 'declaration-dependencies-first', ('rogw/tranp/semantics/reflection/db.py', "			if decl_symbol is not None and decl_symbol is not symbol and type_key not in visiting:\n				self._order_keys_recursive(for_module_path, decl_symbol, orders, (*visiting, type_key))\n", ""))
 v('c15-source-map-order', 'C15', 'C15/field-symmetry', 'source_map-order', ('rogw/tranp/implements/syntax/lark/entry.py', "			token.end_line = entry_token['source_map'][2]\n			token.end_column = entry_token['source_map'][3]", "			token.end_line = entry_token['source_map'][3]\n			token.end_column = entry_token['source_map'][2]"))
 v('c15-view-reads-endpos', 'C15', 'C15/view-coverage', 'end_pos', ('rogw/tranp/implements/syntax/lark/entry.py', "		return self.__entry.value if type(self.__entry) is lark.Token else ''", "		return self.__entry.value if type(self.__entry) is lark.Token and self.__entry.end_pos is not None else ''"))
 v('c15-format-bin', 'C15', 'C15/store-wrappers', 'cache-format', ('rogw/tranp/implements/syntax/lark/parser.py', "decorator = self.__caches.get(basepath, identity=identity, format='json')", "decorator = self.__caches.get(basepath, identity=identity, format='bin')"))
